@@ -43,25 +43,30 @@ def run(ctx, out):
             # sometimes further items behind the final one (must not be read either)
             if rng.random() < 0.2:
                 items.append(rng.choice(letters)[0])
-            ops.append(f"seq {s['name']} {cmd.hex()} " + ",".join(i.hex() for i in items))
+            # a share of the scripts with every read of the client limited to 1, 2 or 7 bytes (short reads): same behaviour required
+            k = rng.choice([0, 0, 0, 1, 2, 7])
+            ops.append(f"seq{'@%d' % k if k else ''} {s['name']} {cmd.hex()} " + ",".join(i.hex() for i in items))
             ev, done = G.expected_events(cmd, 3, sc, finals, once)
             want.append(" / ".join(ev + ["end"]))
     # the firmware upload loop (its own into_stream): every data request answered exactly once with the requested block
     wops, wwant, _ = c11.gen_cases(spec, CG.Packets(spec), rng, 400 if thorough else 80, thorough, wellformed=True)
+    wops = [("wf@%d" % rng.choice([1, 3, 64]) + o[2:]) if rng.random() < 0.3 else o for o in wops]
     ops += wops
     want += [w if w.endswith("end") else w for w in wwant]
     impl, model = ctx.pair(ops)
     out.compare("seq(well-formed)", ops, impl, model)
     out.evaluations = len(ops)
     for o, r, w in zip(ops, impl, want):
-        out.count(o.split()[1] if o.startswith("seq ") else "feig::sequences::WriteFile")
+        out.count(o.split()[1] if o.startswith("seq") else "feig::sequences::WriteFile")
+        if "@" in o.split()[0]:
+            out.count("short-reads")
         out.nontrivial.add(o)
         if r != w:
             i = next((j for j in range(min(len(r), len(w))) if r[j] != w[j]), min(len(r), len(w)))
             out.oracle_failures.append({"op": o[:400], "observed": "…" + r[max(0, i - 80):i + 160], "expected": "…" + w[max(0, i - 80):i + 160], "key": o[:200],
-                                        "what": f"{o.split()[1] if o.startswith('seq ') else 'feig::sequences::WriteFile'}: not (command once, ack read, each reply read-answered-yielded in order, end right after the first final packet, nothing read behind it)"})
+                                        "what": f"{o.split()[1] if o.startswith('seq') else 'feig::sequences::WriteFile'}: not (command once, ack read, each reply read-answered-yielded in order, end right after the first final packet, nothing read behind it)"})
     out.rule = (f"all {len(spec['sequences'])} `impl Sequence` exchanges x reply scripts over each command's reply alphabet (2 canonical packets per variant): bounded-exhaustive up to depth {depth} "
-                "(sampled to 300 prefixes per length when larger), random deeper scripts up to 13 replies, random bytes or whole packets queued behind the final packet; the ordered event log "
+                "(sampled to 300 prefixes per length when larger), random deeper scripts up to 13 replies, random bytes or whole packets queued behind the final packet; half of the scripts additionally with every read of the client limited to 1, 2 or 7 bytes; the ordered event log "
                 "(writes with bytes, reads with byte counts, yields, end) of the real into_stream against the scripted in-memory terminal equals the model's and the independently computed expectation. "
                 "Plus the firmware upload loop (WriteFile::into_stream): payload directories with several files x request walks over them (sequential, round-robin, continuing in another file) "
                 "ended by completion or abort with bytes queued behind: each request answered exactly once with the requested block of the requested file. non-trivial = distinct (sequence, script)")
